@@ -39,6 +39,13 @@
 #define VS_BNOT 20
 #define VS_MINUS 21
 #define VS_DEFINED 22
+/* comparisons of floating-point operands (operands are the bit patterns of doubles) */
+#define VS_DEQ 23
+#define VS_DNEQ 24
+#define VS_DLT 25
+#define VS_DGT 26
+#define VS_DLE 27
+#define VS_DGE 28
 
 
 static inline int64_t vs_asr(int64_t a, unsigned n) /* arithmetic shift, n<64 */
@@ -84,6 +91,21 @@ static inline int64_t vs_binop(int op, int64_t a, int64_t b)
   case VS_GT: return a > b;
   case VS_LE: return a <= b;
   case VS_GE: return a >= b;
+  }
+  if (op >= VS_DEQ && op <= VS_DGE)
+  {
+    union { int64_t i; double d; } ua, ub;
+    ua.i = a; ub.i = b;
+    double x = ua.d, y = ub.d;
+    switch (op)
+    {
+    case VS_DEQ: return x == y;
+    case VS_DNEQ: return x != y;
+    case VS_DLT: return x < y;
+    case VS_DGT: return x > y;
+    case VS_DLE: return x <= y;
+    case VS_DGE: return x >= y;
+    }
   }
   return VS_UNDEF;
 }
